@@ -45,6 +45,32 @@ def _replay_case(mod, case):
     return list(mod.replay(case))
 
 
+def _confirm_by_job(pid, viol):
+    """Fallback when a single case does not reproduce on a fresh world: the violation may depend on state the
+    implementation carried over from earlier executions of the same job (module-level caches and the like).
+    The whole job is deterministic, so it is re-run twice, each time in a fresh process; both runs must show
+    the same violation signature."""
+    import subprocess
+    import tempfile
+
+    job = viol.get("job")
+    if job is None:
+        return False
+    body = {"property": pid, "signature": viol["signature"], "case": {"__job__": core.jsonable(job)}}
+    os.makedirs(core.REPLAY_DIR, exist_ok=True)
+    with tempfile.NamedTemporaryFile("w", suffix=".json", delete=False, dir=core.REPLAY_DIR) as fh:
+        json.dump(body, fh)
+        tmp = fh.name
+    try:
+        for _ in range(2):
+            r = subprocess.run([sys.executable, "-m", "mc.cli", pid, "--replay", tmp], capture_output=True, text=True, cwd=VERIF_DIR)
+            if f"REPRODUCED signature={viol['signature']} " not in r.stdout:
+                return False
+        return True
+    finally:
+        os.unlink(tmp)
+
+
 def main(argv=None):
     ap = argparse.ArgumentParser(prog="check")
     ap.add_argument("prop")
@@ -103,6 +129,10 @@ def main(argv=None):
             continue
         seen_sig.add(v["signature"])
         ok, why = _confirm(mod, v)
+        if not ok and _confirm_by_job(pid, v):
+            v = dict(v, case={"__job__": core.jsonable(v["job"])},
+                     message=v["message"] + "  [reproduces only after the earlier executions of its job: the implementation carries state between executions; replay re-runs the job]")
+            ok = True
         if not ok:
             unstable.append((v, why))
             continue
@@ -163,4 +193,14 @@ def main(argv=None):
 
 
 if __name__ == "__main__":
-    sys.exit(main())
+    try:
+        rc = main()
+    except SystemExit:
+        raise
+    except BaseException:  # noqa: BLE001 - a crash of the driver is never a verdict
+        import traceback
+
+        traceback.print_exc()
+        print("HARNESS-ERROR: the check driver crashed; no verdict")
+        rc = 3
+    sys.exit(rc)
